@@ -480,6 +480,7 @@ func (sc *c17Scenario) Run(s *simrt.Sim) {
 		failing := wantSent == 0 || sc.Fault == "transport" || sc.Fault == "torn" || sc.Fault == "empty" || sc.Fault == "malformed" || sc.Fault == "deserializer-nil" || sc.Fault == "read-error-after-body"
 		if failing {
 			sc.probes["fault-"+sc.Fault]++
+			s.Fault(sc.Fault)
 			if resp.Err == nil {
 				add("failure-surfaces-as-Err", "fault-"+sc.Fault+"-but-nil-Err", fmt.Sprintf("evaluation %d: injected fault %q but APIResponse.Err is nil", i, sc.Fault))
 			}
